@@ -114,6 +114,17 @@ def classify_acc_assignment(value: ast.AST, acc: str, cur: str, derived: Set[str
                     return S_LOSSY
             if ok:
                 return S_SUBSET
+    # list(filter(lambda d: <key of d> in <derived from current>, self.<acc>)) - the same filter, written functionally
+    v2 = value
+    if isinstance(v2, ast.Call) and dotted(v2.func) in ("list", "tuple") and len(v2.args) == 1:
+        v2 = v2.args[0]
+    if isinstance(v2, ast.Call) and dotted(v2.func) == "filter" and len(v2.args) == 2 and isinstance(v2.args[0], ast.Lambda) and is_acc(v2.args[1]) \
+            and len(v2.args[0].args.args) == 1:
+        p = v2.args[0].args.args[0].arg
+        t = v2.args[0].body
+        if isinstance(t, ast.Compare) and len(t.ops) == 1 and isinstance(t.ops[0], ast.In) and _mentions(t.left, {p}) \
+                and _mentions(t.comparators[0], derived):
+            return S_SUBSET if _lossless_key(t.left, p) else S_LOSSY
     if isinstance(value, ast.BinOp) and isinstance(value.op, ast.BitAnd) and (is_acc(value.left) or is_acc(value.right)) \
             and (_mentions(value.left, derived) or _mentions(value.right, derived)):
         return S_SUBSET
